@@ -336,6 +336,9 @@ type fdaScenario struct {
 	// the scenario is meant to run in a private network namespace (lib/fdrun.py wraps it in `unshare -n` and sets
 	// VERIF_FDA_NETNS=1); without one it still runs, with less effect
 	netns bool
+	// the scenario depends on several threads really running at the same instant: the runner starts it before the
+	// others, not next to fifteen more
+	quiet bool
 	// outcomes that this scenario provokes on purpose: no "does not normally happen" hint for the model run
 	noExpect []string
 }
@@ -1059,11 +1062,14 @@ func VerifFdAuditMain(args []string) int {
 	if len(args) >= 1 && args[0] == "list" {
 		// one scenario per line: name, then flags for the runner (`netns`: wrap in a private network namespace)
 		for _, s := range fdaScenarios() {
+			l := s.name
 			if s.netns {
-				fmt.Println(s.name, "netns")
-			} else {
-				fmt.Println(s.name)
+				l += " netns"
 			}
+			if s.quiet {
+				l += " quiet"
+			}
+			fmt.Println(l)
 		}
 		return 0
 	}
